@@ -23,11 +23,12 @@ STEPS = {
     "O": lambda p, t, u: t >> p.arrange(p.C.b.descending().nulls_last()),
     "J": lambda p, t, u: t >> p.left_join(u, p.C.a == u.k) >> p.mutate(b=p.C.b + p.C.x.fill_null(0)) >> p.select(p.C.a, p.C.b, p.C.g),
     "K": lambda p, t, u: t >> p.left_join(u >> p.mutate(q=1), p.C.a == u.k) >> p.mutate(b=p.C.b + p.C.q.fill_null(0)) >> p.select(p.C.a, p.C.b, p.C.g),
+    "Q": lambda p, t, u: t >> p.full_join(u, p.C.a == u.k) >> p.mutate(b=p.C.b + p.C.x.fill_null(0)) >> p.select(p.C.a, p.C.b, p.C.g),
     "R": lambda p, t, u: t >> p.rename({"a": "b", "b": "a"}),
     "P": lambda p, t, u: t >> p.select(p.C.g, p.C.b, p.C.a),
 }
 ALIAS = lambda p, t, u: t >> p.alias("z")  # noqa: E731
-KINDS = ["F", "M", "W", "A", "S", "U", "L", "O", "J", "K"]
+KINDS = ["F", "M", "W", "A", "S", "U", "L", "O", "J", "K", "Q"]
 NEVER_NEED = ["F", "M", "O", "R", "P"]  # + one grouped summarize + final slice_head
 
 
@@ -51,7 +52,7 @@ def sequences(cfg):
     seqs = []
     for n in (1, 2):
         for seq in itertools.product(KINDS, repeat=n):
-            if seq.count("J") + seq.count("K") > 1:
+            if seq.count("J") + seq.count("K") + seq.count("Q") > 1:
                 continue
             for mask in itertools.product((False, True), repeat=n):
                 if mask[0]:
@@ -59,7 +60,7 @@ def sequences(cfg):
                 seqs.append((seq, mask))
     three = []
     for seq in itertools.product(KINDS, repeat=3):
-        if seq.count("J") + seq.count("K") > 1:
+        if seq.count("J") + seq.count("K") + seq.count("Q") > 1:
             continue
         for mask in itertools.product((False, True), repeat=3):
             if mask[0]:
